@@ -370,7 +370,9 @@ DtYears == IF Big THEN {<<0,0,0,1>>, <<0,0,0,0>>, <<1,9,7,0>>, <<2,0,2,4>>, <<9,
 DtFr == {<<>>, <<5>>, <<1,2,3>>, <<1,2,3,4,5,6>>, <<0,0,0,0,0,1>>, <<9,9,9,9,9,9>>, <<5,0>>}
         \cup (IF Big THEN {<<1,2,3,4,5,6,7>>, <<0,0,0,0,0,0,5>>, <<0>>, <<9,9,9>>, <<0,0,1>>} ELSE {})
 DtDates == {<<0, 0>>, <<1, 0>>, <<12, 0>>, <<1, 1>>, <<2, 28>>, <<12, 31>>} \cup (IF Big THEN {<<6, 15>>, <<10, 9>>} ELSE {})
-DtTz == {<<"none", 0, 0>>, <<"Z", 0, 0>>, <<"+", 0, 0>>, <<"-", 0, 0>>, <<"+", 5, 30>>, <<"-", 8, 0>>, <<"+", 14, 0>>, <<"-", 14, 0>>}
+\* (designators whose hour part is 00 - the sign lives in the minutes alone - and ones with both parts non-zero)
+DtTz == {<<"none", 0, 0>>, <<"Z", 0, 0>>, <<"+", 0, 0>>, <<"-", 0, 0>>, <<"+", 5, 30>>, <<"-", 8, 0>>, <<"+", 14, 0>>, <<"-", 14, 0>>,
+         <<"-", 0, 30>>, <<"+", 0, 45>>, <<"-", 9, 30>>, <<"-", 13, 59>>}
         \cup (IF Big THEN {<<"+", 1, 0>>, <<"-", 13, 59>>, <<"+", 0, 1>>} ELSE {})
 DtHms == IF Big THEN {<<0,0,0>>, <<9,5,6>>, <<23,59,59>>, <<12,0,5>>, <<0,0,59>>, <<10,10,10>>}
          ELSE {<<0,0,0>>, <<9,5,6>>, <<23,59,59>>}
